@@ -77,6 +77,8 @@ def h_sample(ctx):
         for a in arrs:
             a.buf.frozen = True
         net = semi.DRFNet(graph, list(arrs))
+        cl.append(('the network keeps no reference to the caller\'s graph / data arrays (later changes by the caller cannot affect it)',
+                   not any(a.buf is b.buf for a in [net.graph] + list(net._data) for b in [graph] + arrs)))
         nfit = len(fake_rpy2.FITS)
         nonsrc = [i for i in range(p) if parents[i]]
         cl.append(('one forest per (non-source variable, environment)', nfit == len(nonsrc) * len(envs)))
@@ -377,6 +379,8 @@ def _real_check(graph, data, n, seed):
             Y = R.FITS[fid]['Y']
             if len(ids) == want[k] and any(out[k][r, i] != Y[ids[r], 0] for r in range(want[k])):
                 bad.append('variable %d env %d: a value is not the response of the training row drawn with its row\'s forest weights' % (i, k))
+    if any(numpy.shares_memory(a, b) for a in [net.graph] + list(net._data) for b in [graph] + list(data)):
+        bad.append('the network shares memory with the caller\'s graph / data')
     # reproducibility, with other sampling in between
     numpy.random.seed(99)
     numpy.random.normal(size=5)
